@@ -51,7 +51,7 @@ Print Assumptions dry_run_predicts.
 Example dry_run_example :
   let pr := [(1, Fn [] [10] [100] 1 7 false); (2, Fn [1] [] [101] 2 8 false); (10, Src 50)] in
   let w := mkWorld pr [(50, CLit 1)] [] 1 0 [] [] in
-  let o := build (mkCfg false true [] false [] []) w 2 in
+  let o := build (mkCfg false true [] false [] [] []) w 2 in
   o_ran o = [] /\ o_w o = load w /\
   o_events o = [EEvaluating 10; ESucceeded 10; EEvaluating 1; ESucceeded 1; EEvaluating 2; ESucceeded 2].
 Proof. vm_compute. repeat split. Qed.
